@@ -10,7 +10,7 @@ from valjean.cosette.depgraph import DepGraph
 from . import runtime
 
 _MODS = None
-OUTCOMES = ('ok', 'raise', 'fail', 'none', 'notpair', 'badstatus', 'badupdate', 'triple')
+OUTCOMES = ('ok', 'raise', 'fail', 'none', 'notpair', 'badstatus', 'badupdate', 'triple', 'clobber')
 FINAL = (TaskStatus.DONE, TaskStatus.FAILED, TaskStatus.SKIPPED)
 
 
@@ -66,6 +66,9 @@ class Probe(Task):
             return 42, TaskStatus.DONE
         if out == 'triple':
             return upd, TaskStatus.DONE, 0
+        if out == 'clobber':
+            # a well-formed pair whose update replaces the task's own entry by something that is not a mapping
+            return {self.name: 5}, TaskStatus.DONE
         raise AssertionError(out)
 
 
